@@ -97,6 +97,7 @@ class Sim:
         self.hot_salt = 0
         self.hot_counter = 0
         self.hot_max_stall = 400_000
+        self.seam_stall_k = 0               # seam mode: 1/k of the seam visits stall the task
         self.passes = {}
         self.aborted = None
 
@@ -153,6 +154,14 @@ class Sim:
         if self.steps > self.step_cap:
             raise StepCap(f"step cap {self.step_cap} exceeded")
         self.sched_h.update(f"{t.name}@{what};".encode())
+        if self.seam_stall_k:
+            # a slow node: now and then a task is stalled at a seam until another task has come through the
+            # same kind of seam (or a bound passes); which visits stall is a pure function of one per-run salt
+            self.passes[what] = self.passes.get(what, 0) + 1
+            self.hot_counter += 1
+            if ((self.hot_counter * 2654435761 + self.hot_salt) >> 9) % self.seam_stall_k == 0:
+                t.park = (what, self.passes[what] + 1, self.steps + 400)
+                self.stats["probe.stalls_at_seams"] += 1
         self.sched_lock.release()        # give the baton back
         t.lock.acquire()                 # and wait for it
 
